@@ -6,7 +6,7 @@
    [trace s = rev (tr s)] is chronological. *)
 From Coq Require Import List ZArith Bool.
 From Coq Require Import NArith.
-From KV Require Import Model.Sasl Proofs.SaslProofs Proofs.SaslRawRead.
+From KV Require Import Model.Sasl Proofs.SaslProofs Proofs.SaslRawRead Proofs.SaslAddrConc.
 Import ListNotations.
 Open Scope Z_scope.
 
@@ -66,6 +66,7 @@ Print Assumptions C18_version_framing.
    neither path, handshake version or framing changes the verdict. *)
 Theorem C18_exchange_complete :
   forall mstate mstart mnext p a sstate (srv_init : sstate) srv_next n,
+    port_is_number (dial_addr a) = true ->
     0 <= hs_version p a ->
     accepted_or_out
       (drive mstate mstart mnext p a sstate srv_next (3 + n) None 0 init (Some srv_init)) =
@@ -167,8 +168,48 @@ Theorem C18_refused_response_fails :
 Proof. exact refused_response_fails. Qed.
 Print Assumptions C18_refused_response_fails.
 
+(* ---- the dial address ---- *)
+(* [a] carries the class of the address that was dialled (dial_addr): numeric port, no port,
+   service-name port, IPv6 literal, port 0, port 65536, empty.  For EVERY address class, on
+   both paths: a connection that is handed out has the verdict in its trace, and every
+   non-authentication request on it comes after the verdict. *)
+Theorem C18_authenticated_whatever_address :
+  forall mstate mstart mnext p a (s : state mstate),
+    reachable mstate mstart mnext p a s ->
+    handed_out s = true ->
+    In EVerdict (tr s) /\
+    (forall l1 m l2, trace s = l1 ++ ESend m :: l2 -> auth_msg m = false -> In EVerdict l1).
+Proof. exact authenticated_whatever_address. Qed.
+Print Assumptions C18_authenticated_whatever_address.
+
+(* The one class both paths refuse — a port that is not a number: the connection is never
+   handed out, no verdict, and nothing is written except, on the Transport path, the
+   ApiVersions request that precedes its look at the address. *)
+Theorem C18_refused_address_writes_nothing :
+  forall mstate mstart mnext p a,
+    port_is_number (dial_addr a) = false ->
+    forall s : state mstate, reachable mstate mstart mnext p a s ->
+      handed_out s = false /\ ~ In EVerdict (tr s) /\ ~ In EHandOut (tr s) /\
+      (forall m, In (ESend m) (tr s) -> p = Transport /\ m = MReq K_ApiVersions 0).
+Proof. exact refused_address_writes_nothing. Qed.
+Print Assumptions C18_refused_address_writes_nothing.
+
+(* ---- n concurrent set-ups over one Mechanism value ---- *)
+(* The joint system of n connections (a step of connection i is a step of its component;
+   every connection owns the machine state Start gave it) is the product of n single
+   systems: every component of a jointly reachable state is a reachable single-connection
+   state, so every theorem above holds of each connection whatever the interleaving.
+   Obligation on the code (ASSUMPTIONS, S-conc): Mechanism.Start allocates its StateMachine. *)
+Theorem C18_concurrent_is_product :
+  forall mstate mstart mnext p a n ss,
+    mreachable mstate mstart mnext p a n ss ->
+    length ss = n /\ Forall (reachable mstate mstart mnext p a) ss.
+Proof. exact mreachable_components. Qed.
+Print Assumptions C18_concurrent_is_product.
+
 (* ---- non-vacuity ---- *)
-Definition adv01 (hs au : option Z) : advert := {| hs_max := hs; auth_max := au |}.
+Definition adv01 (hs au : option Z) : advert := {| hs_max := hs; auth_max := au; dial_addr := AddrNumericPort |}.
+Definition adv_at (hs au : option Z) (ac : addr_class) : advert := {| hs_max := hs; auth_max := au; dial_addr := ac |}.
 
 (* PLAIN, Dialer, handshake v1, right credentials: framed exchange, verdict, hand-out, use *)
 Example ex_plain_dialer_v1 :
@@ -236,4 +277,16 @@ Example ex_refusal_null_message :
    ESend (MReq 36 0); ERecv (RErr 58); EClose] /\
   fault_of_response 2 (mkResp 0 (Some [1; 2]) []) = None /\
   refused (mkResp (-1) (Some []) []) = true /\ refused (mkResp 200 None []) = true.
+Proof. vm_compute. repeat split; reflexivity. Qed.
+
+(* addresses: a service-name port is refused (Dialer: before anything is written and — as the
+   code does — without closing the socket; Transport: after ApiVersions, closed); port 65536
+   and the empty address authenticate like any other *)
+Example ex_addresses :
+  trace (run_case Dialer (adv_at (Some 1) (Some 1) AddrServiceName) MPlain CredRight None) = [ERefused] /\
+  trace (run_case Transport (adv_at (Some 1) (Some 1) AddrServiceName) MPlain CredRight None) =
+    [ESend (MReq 18 0); ERecv (ROk []); EClose] /\
+  trace (run_case Dialer (adv_at (Some 1) (Some 1) AddrPortHuge) MPlain CredRight None) =
+    trace (run_case Dialer (adv01 (Some 1) (Some 1)) MPlain CredRight None) /\
+  handed_out (run_case Transport (adv_at (Some 0) None AddrEmpty) MScram CredRight None) = true.
 Proof. vm_compute. repeat split; reflexivity. Qed.
